@@ -160,7 +160,8 @@ func (u *controlUnit) handleRunner(ctx *risc.Context, cycle int, runner *risc.In
 		if !pushed {
 			return false, true
 		}
-		return true, false
+		// A return ends the run: nothing younger is issued behind it
+		return true, runner.Runner.InstructionType() == risc.Ret
 	}
 
 	if should, previousRunner, register := u.shouldUseForwarding(runner, hazards, hazardTypes); should {
